@@ -24,7 +24,7 @@ SCHED_PATH = ("sched",)
 LEVEL = "exploration"
 QUICK_N = 400
 SCENARIO_TIMEOUT = 180
-PROBES = ["tie_mode", "score_exactly_zero", "quantised_scores", "best_ranked_rows_are_decoys", "dedup_off", "rollup_off", "decoys_off", "multi_collection", "no_prefix_multi",
+PROBES = ["tie_mode", "score_exactly_zero", "quantised_scores", "best_ranked_rows_are_decoys", "another_collection_analysed_before_in_process", "dedup_off", "rollup_off", "decoys_off", "multi_collection", "no_prefix_multi",
           "level_cols", "parquet", "spill_files>=2", "group_cut_by_chunk", "merge_chunk_small", "workers>1",
           "switches>0", "listing_permuted", "rollup_tool", "rollup_tool_multi_root", "degenerate_level",
           "conf_chunk_1", "level_batch_flush"]
@@ -96,6 +96,9 @@ def make_scenario(seed):
         "sched": world.gen_sched(rng, workers, est_steps=800),
         "glob_seed": rng.getrandbits(16),
         "rollup_tool": None,
+        # another collection was analysed earlier in the same process (module-level state must not leak)
+        "prior": {"table": W.gen_conf_table_params(rng, file_id=7, small=True), "score_seed": rng.getrandbits(32)}
+        if rng.random() < 0.2 else None,
     }
     if rollup_tool:
         scn["tie_mode"] = False
@@ -267,6 +270,13 @@ def run_scenario(scn, workdir):
     kn = scn.get("knobs") or {}
     if scn.get("rollup_tool"):
         return _run_rollup_tool(scn, tables, scores, workdir)
+    if scn.get("prior"):
+        pt = dict(scn["prior"]["table"])
+        for k in ("spec_extra", "label_enc", "level_cols"):
+            pt[k] = scn["tables"][0][k]
+        ptab = W.build_conf_table(pt)
+        W.run_assign_confidence([ptab], [W.gen_scores(ptab, scn["prior"]["score_seed"])], dict(conf, prefixes=None), workdir,
+                                "prior", fmt=scn["format"], row_group=scn.get("row_group"), max_workers=1)
     res = W.run_assign_confidence(tables, scores, conf, workdir, "run", fmt=scn["format"], row_group=scn.get("row_group"),
                                   sched_desc=scn.get("sched"), knobs=kn, glob_seed=scn.get("glob_seed"),
                                   max_workers=scn["max_workers"])
@@ -292,6 +302,7 @@ def run_scenario(scn, workdir):
         "score_exactly_zero": int(any(v == 0.0 for sc in scores for v in sc)),
         "quantised_scores": int(scn.get("score_mode") == "quantised"),
         "best_ranked_rows_are_decoys": int(bool(scn.get("top_decoys"))),
+        "another_collection_analysed_before_in_process": int(bool(scn.get("prior"))),
         "dedup_off": int(not conf["dedup"]),
         "rollup_off": int(not conf["rollup"]),
         "decoys_off": int(not conf["decoys"]),
@@ -514,6 +525,8 @@ def shrink_candidates(scn):
         if c.get("rollup_tool"):
             c["rollup_tool"]["roots"] = c["rollup_tool"]["roots"][:-1]
         yield c
+    if scn.get("prior"):
+        c = clone(scn); c["prior"] = None; yield c
     if scn["tie_mode"] and scn.get("score_mode") != "quantised":
         c = clone(scn); c["tie_mode"] = False; yield c
     if scn.get("score_mode") == "zero_anchor":
